@@ -77,6 +77,10 @@ func pairs(m map[string]string) []any {
 		if v == `""` {
 			v = "" // the YAML spelling of the empty string
 		}
+		if v == "~" {
+			out = append(out, []any{k, nil}) // the YAML null: the key is present and holds nil
+			continue
+		}
 		out = append(out, []any{k, v})
 	}
 	return out
@@ -148,6 +152,7 @@ func c07DataCase(g c07DataGraph, desc string) *Case {
 	for _, l := range links {
 		own := g.fm[l[0]]
 		for i, k := range c07Probes {
+			// a key that a source sets to the YAML null (`k: ~`) is PRESENT there: it prints as nothing and hides the lower sources
 			want := ""
 			switch {
 			case own[k] != "":
@@ -158,6 +163,9 @@ func c07DataCase(g c07DataGraph, desc string) *Case {
 				want = g.fill[k]
 			default:
 				want = g.config[k]
+			}
+			if want == "~" {
+				want = ""
 			}
 			if l[i+1] != want {
 				c.Oracle = &Verdict{OK: false, Class: "data-visibility:link-reads-wrong-value", Detail: fmt.Sprintf("%s: link %s reads %s=%q, expected %q (own front-matter %v, page front-matter %v, fill %v, config %v); output %q", desc, l[0], k, l[i+1], want, own, pageFM, g.fill, g.config, stripped)}
@@ -222,6 +230,17 @@ func c07DataStream(r *Run) {
 		}
 		if r.Rng.Intn(8) == 0 {
 			g.fm[g.page]["layout"] = `""` // present but empty: names no layout
+		}
+		// explicit nulls in front-matter: a probe key of the page or of a layout, the page's `layout:` itself
+		if r.Rng.Intn(4) == 0 {
+			f := fileSet[r.Rng.Intn(len(fileSet))]
+			g.fm[f][c07Probes[r.Rng.Intn(len(c07Probes))]] = "~"
+		}
+		if r.Rng.Intn(12) == 0 {
+			g.fm[g.page]["layout"] = "~"
+			if r.Rng.Intn(2) == 0 {
+				g.fill["layout"] = "b"
+			}
 		}
 		r.Add(c07DataCase(g, fmt.Sprintf("g%d", i)))
 	}
